@@ -5,6 +5,7 @@ CONSTANTS
   HasTimeout = {j1}
   IgnoresTerm = {j1}
   PopenMayFail = {j2}
+  PreFix = FALSE
   CoarseCancel = FALSE
   Modes = {"none", "nowait", "wait"}
   MaxPreempt = 1000
